@@ -14,6 +14,7 @@ def normalise(cfg):
     c.setdefault("advRounds", 0)
     c.setdefault("perm", [])
     c.setdefault("adv", [])
+    c.setdefault("api", False)
     est = {(a["o"], a["k"]): a["est"] for a in c["plan"]}
     for ob in c["obs"]:
         for n in ob["wf"]["nodes"]:
